@@ -266,6 +266,10 @@ func TestVerifC19Sets(t *testing.T) {
 					switch res.Res {
 					case "panic":
 						mon = append(mon, fmt.Sprintf("GetGuardianSet(%d) panicked: %s", idx, res.Msg))
+					case "err-fetch", "err-index", "err-other":
+						if idx <= cur {
+							mon = append(mon, fmt.Sprintf("GetGuardianSet(%d) failed although the store holds sets 0..%d: %s", idx, cur, res.Msg))
+						}
 					case "ok":
 						if res.Index != int64(idx) {
 							mon = append(mon, fmt.Sprintf("GetGuardianSet(%d) returned the set with index %d", idx, res.Index))
@@ -397,6 +401,38 @@ func TestVerifC19Race(t *testing.T) {
 				}
 			}(j)
 		}
+		wg.Add(1)
+		go func() { // what the periodic updater and NewGuardianSets do: take the current set while appends happen
+			defer wg.Done()
+			last := int64(-1)
+			for atomic.LoadInt32(&stop) == 0 {
+				p := atomic.LoadInt64(&published)
+				pan := ""
+				var gi int64
+				func() {
+					defer func() {
+						if x := recover(); x != nil {
+							pan = fmt.Sprint(x)
+						}
+					}()
+					gi = int64(gs.GetCurrentGuardianSet().Index)
+				}()
+				atomic.AddInt64(&lookups, 1)
+				if pan != "" {
+					atomic.AddInt64(&panics, 1)
+					report("panic-current", "concurrent GetCurrentGuardianSet panicked: "+pan, map[string]interface{}{"round": round, "published": p, "panic": pan,
+						"schedule": fmt.Sprintf("store holds sets 0..%d; writer: updateGuardianSets has stored the new current index, has not appended yet; reader: GetCurrentGuardianSet indexes the old list with the new index", p)})
+				} else if gi < p || gi < last || gi >= int64(K) {
+					atomic.AddInt64(&wrong, 1)
+					report("wrong-current", fmt.Sprintf("concurrent GetCurrentGuardianSet returned the set with index %d after the append up to %d had completed (previous answer %d)", gi, p, last),
+						map[string]interface{}{"round": round, "got": gi, "published": p, "previous": last})
+				} else {
+					atomic.AddInt64(&oks, 1)
+				}
+				last = gi
+				runtime.Gosched()
+			}
+		}()
 		for _, b := range batches {
 			bt := []*common.GuardianSet{}
 			for i := b.from; i <= b.to; i++ {
